@@ -197,8 +197,12 @@ def run(tier):
     t0 = time.time()
     wd = C.workdir("c12")
     rng = random.Random(C.seed())
-    m1 = C.tlc_model_check("Prefs", "MC_Prefs_intended.cfg", wd, workers=8, timeout=600, required_actions=("SetPreference", "SetMathML"))
+    m1 = C.tlc_model_check("Prefs", "MC_Prefs_intended.cfg", wd, workers=8, timeout=600, required_actions=("SetPreference", "SetMathML", "Navigate"))
     asb = C.run_tlc("Prefs", "MC_Prefs_asbuilt519.cfg", wd, workers=4, timeout=300, coverage=False)
+    # what navigation writes back is stored as a string: harmless for NavMode, not for a boolean preference (refuted by KindsStable)
+    wif = C.run_tlc("Prefs", "MC_Prefs_whatif_navbool.cfg", wd, workers=2, timeout=300, coverage=False)
+    if wif["violation"] != "KindsStable":
+        raise C.ToolError(f"Prefs.tla: a boolean written back by navigation is not refuted by KindsStable ({wif['violation']}, {wif['error']})")
     # the derived number separators (Separators.tla): they follow DecimalSeparator / Language in every order; the guard slip
     # (recompute only when the OLD value is Auto) is refuted
     msep = C.tlc_model_check("Separators", "MC_Separators_intended.cfg", wd, workers=2, timeout=300, coverage=False)
